@@ -217,6 +217,96 @@ func members(vs []int, mask int, what string) *mc.Failure {
 	return nil
 }
 
+// ---- larger sets (universe 0..63, reference = bit masks) ----
+
+func bigSet(mask uint64, nilIfEmpty bool) mapset.Set[int] {
+	if mask == 0 && nilIfEmpty {
+		return nil
+	}
+	s := make(mapset.Set[int])
+	for v := 0; v < 64; v++ {
+		if mask&(1<<uint(v)) != 0 {
+			s[v] = struct{}{}
+		}
+	}
+	return s
+}
+
+func bigMask(s mapset.Set[int]) (uint64, bool) {
+	var m uint64
+	for v := range s {
+		if v < 0 || v > 63 {
+			return 0, false
+		}
+		m |= 1 << uint(v)
+	}
+	return m, true
+}
+
+var bigFamily = []uint64{0, 1, 1 << 63, 0x3FF, 0x5555555555, 0x9249249249249249, ^uint64(0), 0xFFFFFFFF, 0xFFFFFFFF00000000, 0x3FF &^ 1, 0xFFFF0000FFFF}
+
+type bigCase struct {
+	A, B, C int // indices into bigFamily
+}
+
+func checkBig(c bigCase) *mc.Failure {
+	return mc.GuardT("big-sets", c, func() *mc.Failure {
+		am, bm, cm := bigFamily[c.A], bigFamily[c.B], bigFamily[c.C]
+		a, b, cc := bigSet(am, c.A%2 == 0), bigSet(bm, false), bigSet(cm, true)
+		if a.Intersects(b) != (am&bm != 0) || a.IsSubset(b) != (am&^bm == 0) || a.Equals(b) != (am == bm) {
+			return mc.Failf(0, "predicates on sets %x and %x: Intersects=%v IsSubset=%v Equals=%v", am, bm, a.Intersects(b), a.IsSubset(b), a.Equals(b))
+		}
+		in := mapset.Intersect(a, b, cc)
+		if m, ok := bigMask(in); !ok || in == nil || m != am&bm&cm {
+			return mc.Failf(0, "Intersect(%x,%x,%x) = %x", am, bm, cm, m)
+		}
+		if b.HasAll(a.Slice()...) != (am&^bm == 0) || b.HasAny(a.Slice()...) != (am&bm != 0) {
+			return mc.Failf(0, "HasAll/HasAny of set %x with the elements of %x", bm, am)
+		}
+		sl := b.Slice()
+		if len(sl) != len(b) {
+			return mc.Failf(0, "Slice of %x has %d elements", bm, len(sl))
+		}
+		ap := cc.Append(append(make([]int, 0, 3), -1, -2))
+		if len(ap) != len(cc)+2 || ap[0] != -1 || ap[1] != -2 {
+			return mc.Failf(0, "Append after a prefix on set %x gives %d elements", cm, len(ap))
+		}
+		// mutations: union, difference, removal of a list, clone independence
+		u := a.Clone()
+		u.AddAll(b)
+		if m, _ := bigMask(u); m != am|bm {
+			return mc.Failf(0, "Clone(%x).AddAll(%x) = %x", am, bm, m)
+		}
+		u.RemoveAll(cc)
+		if m, _ := bigMask(u); m != (am|bm)&^cm {
+			return mc.Failf(0, "RemoveAll(%x) from %x = %x", cm, am|bm, m)
+		}
+		d := b.Clone()
+		d.Remove(append(a.Slice(), 64, 65, 64)...)
+		if m, _ := bigMask(d); m != bm&^am {
+			return mc.Failf(0, "Remove(elements of %x and absent values) from %x = %x", am, bm, m)
+		}
+		if m, _ := bigMask(a); m != am {
+			return mc.Failf(0, "an operation on a clone changed the original %x -> %x", am, m)
+		}
+		if m, _ := bigMask(b); m != bm {
+			return mc.Failf(0, "an operation changed its argument %x -> %x", bm, m)
+		}
+		n := len(d)
+		for len(d) > 0 {
+			v := d.Pop()
+			if bm&^am&(1<<uint(v)) == 0 || d.Has(v) {
+				return mc.Failf(0, "Pop returned %d from %x", v, bm&^am)
+			}
+			n--
+		}
+		if n != 0 {
+			return mc.Failf(0, "Pop removed a different number of elements")
+		}
+		return nil
+	})
+}
+
 // ---- mutation histories (E1) ----
 
 var fromEmpty int64
@@ -388,6 +478,30 @@ func main() {
 					return mc.Failf(-1, "bad trace: %v", err)
 				}
 				return check(t)
+			},
+		},
+		mc.Harness{
+			Name: "big-sets",
+			Explore: func(r *mc.Run) {
+				n := len(bigFamily)
+				var evals int64
+				mc.ParallelFor(n*n*n, r.Workers, func(i int) {
+					c := bigCase{i % n, (i / n) % n, i / (n * n)}
+					if f := checkBig(c); f != nil {
+						r.Violation(mc.Case{Harness: "big-sets", Trace: mc.J(c), Msg: f.Msg})
+					}
+					atomic.AddInt64(&evals, 1)
+				})
+				r.AddEval(evals, evals, evals, evals)
+				r.Rule("all triples from a family of 11 sets over the universe 0..63 (empty, nil, singletons, dense, strided, halves, full): predicates, Intersect, HasAll/HasAny with the other set's elements, Slice/Append, AddAll/RemoveAll/Remove on clones, Pop to exhaustion; reference = bit masks")
+				r.Sample(bigCase{3, 5, 6})
+			},
+			Replay: func(c mc.Case) *mc.Failure {
+				var b bigCase
+				if err := mc.Unmarshal(c.Trace, &b); err != nil {
+					return mc.Failf(-1, "bad trace: %v", err)
+				}
+				return checkBig(b)
 			},
 		},
 		mc.Harness{
